@@ -1073,6 +1073,10 @@ def _producer_facts(funcs, env, prod, abort_names, notes):
     if loop is None:
         notes['sched.producer'] = 'the put is not inside a per-chunk loop of the producer'
         return False, False, set()
+    # (the interpreter runs a `for` body once: a second `for` between the per-chunk loop and the put would hide repeated attempts)
+    if probe.sites(prod, lambda n: isinstance(n, (ast.For, ast.AsyncFor)) and n is not loop
+                   and any(probe.reaches(b, _ProducerDom.is_put, 'put') for b in n.body)):
+        raise _Unknown('the put is inside a second for-loop')
     dom = _ProducerDom(abort_names, loop)
     m, outs = _run(dom, funcs, env, prod, defaults_ok=True)
     stops = rechecks = True
@@ -2602,3 +2606,11 @@ def section(ctx):
     emit(f'def removeUnderGlock : Bool := {_b(rm_locked)}')
     emit(f'def popUnderGlock : Bool := {_b(pop_locked)}')
     ctx.fp('repository.restore', rest)
+    # the names behind the roles, for whoever instruments the implementation (evidence: extract_notes['sched.roles'])
+    roles = {'slot_queue': q, 'slot_managers': cms}
+    if snap is not None:
+        roles.update(producer=prod[0].name if prod else None, producer_future=prod[1] if prod else None, worker=worker.name if worker else None,
+                     abort_flag=(events[0] if events else None), chunk_queue=sorted(queues))
+    if rest is not None:
+        roles.update(loader=loader.name if loader else None, writer=writer.name if writer else None, loader_executor=lexec)
+    notes['sched.roles'] = ', '.join(f'{k}={v}' for k, v in roles.items())
